@@ -1,0 +1,7 @@
+//go:build !verif
+
+package stgutg
+
+import "net"
+
+func verifReportSession(supi string, clientip net.IP, teid uint32, upfip net.IP) {}
